@@ -98,7 +98,7 @@ def x_body(f, rng, ncalls):
     for _ in range(rng.range(1, 2)):
         f.emit(I("fill"), "body", rng.choice(X_FILL))
 
-def make_x86(rng, name, shape=None):
+def make_x86(rng, name, shape=None, force_saved=None):
     shape = shape or rng.choice(["frame", "frame", "frameless", "frameless", "indirect", "dwarf-frame", "dwarf-frameless", "null-leaf", "null-fp"])
     f = Func("x86", name, shape)
     if shape == "null-leaf":
@@ -143,6 +143,8 @@ def make_x86(rng, name, shape=None):
     saved = [r for r in pool if r in rng.shuffle(list(pool))[:np_]]
     if rng.chance(1, 2):
         rng.shuffle(saved)                 # the format allows any push order (rbp anywhere among the saved registers)
+    if force_saved is not None:
+        saved = list(force_saved); np_ = len(saved)
     if shape == "indirect":
         alloc = 8 * rng.range(256, 4096)
     else:
@@ -311,6 +313,8 @@ def run_to(st, func, upto, rng):
             for r in getattr(func, "saved", []):
                 if r != RBP:
                     st.regs[r] = rng.u64()
+                elif func.arch == "x86" and not getattr(func, "frame", False):
+                    st.fp = rng.u64()          # a frameless function saves rbp in order to use it as a scratch register
             if func.arch == "x86" and getattr(func, "frame", False) and func.alloc and rng.chance(1, 3):
                 st.sp -= 16 * rng.range(1, 6)            # dynamic allocation in frame-pointer functions
             if func.arch == "a64" and func.can_call:
@@ -327,6 +331,14 @@ def make_program(rng, arch, nfuncs=8):
     for sh in need:
         if sh not in [f.shape for f in funcs]:
             funcs.append(mk(rng, "f%d" % len(funcs), sh))
+    if arch == "x86":
+        # six saved registers with rbp pushed last / first (every slot of the permutation in use)
+        funcs.append(make_x86(rng, "f%d" % len(funcs), "frameless", force_saved=[15, 14, 13, 12, RBX, RBP]))
+        funcs.append(make_x86(rng, "f%d" % len(funcs), rng.choice(["frameless", "indirect"]),
+                              force_saved=rng.choice([[RBP, 15, 14, 13, 12, RBX], [15, 14, 13, 12, RBX, RBP], [15, 14, RBP, 13, 12, RBX]])))
+    for f in funcs:
+        if f.dwarf:
+            f.darwin_cfi = rng.chance(1, 2)
     rng.shuffle(funcs)
     pos = 0x1000
     gran = 1 if arch == "x86" else 4
@@ -362,7 +374,17 @@ def make_program(rng, arch, nfuncs=8):
 
 # ------------------------------------------------------------------ DWARF rows for deferred functions
 def dwarf_rows(f):
-    """CFI row in force at every instruction boundary, derived from what the prologue has done so far"""
+    """CFI row in force at every instruction boundary, derived from what the prologue has done so far.
+    Darwin-style CFI (f.darwin_cfi) has no rows for the epilogue: the body row stays in force to the end of the
+    function, and a thread stopped inside the epilogue is unwound correctly only through instruction analysis"""
+    rows = _dwarf_rows(f)
+    if getattr(f, "darwin_cfi", False):
+        epi = [off for (off, insn, phase) in f.insns if phase == "epilogue"]
+        if epi:
+            rows = [(o, r) for (o, r) in rows if o <= epi[0]]
+    return rows
+
+def _dwarf_rows(f):
     R = ARCH_REGS[f.arch]
     rows = []
     if f.arch == "x86":
